@@ -80,7 +80,12 @@ def run_families(binary, fams, seed, outdir, timeout=1500):
                                env=env, capture_output=True, text=True, timeout=timeout + 30)
         except subprocess.TimeoutExpired:
             return (job, 124, "timeout")
-        return (job, r.returncode, (r.stdout + r.stderr)[-3000:])
+        out = r.stdout + r.stderr
+        if r.returncode != 0:
+            k = max(out.find("panic:"), out.find("--- FAIL"), out.find("HANG "), out.find("fatal error:"))
+            if k >= 0:
+                return (job, r.returncode, out[k:k + 3000])
+        return (job, r.returncode, out[-3000:])
 
     bad = []
     with ThreadPoolExecutor(max_workers=NCPU) as ex:
